@@ -1,6 +1,6 @@
 (* C09 Fee exactness: configured rate at entry, half-up rounding, pro-rata thereafter. *)
 From ATS Require Import Prelude Dec DecFacts Uuid Semver Types Contract Tactics Spec Inv InvAsk InstProofs AskProofs
-  BidFacts DivFacts ProRata InvBid InvStep ExitProofs Ledger MatchProofs.
+  BidFacts DivFacts ProRata InvBid InvStep ExitProofs Ledger MatchProofs Witness.
 
 (* (i)+(ii) both fees are rate_fee rate amount = round_half_away_from_zero(rate*amount) in the contract's decimal
    arithmetic: the bid fee demanded at creation (create_bid_inv: fee = calc, in the quote denomination, or no fee
@@ -151,3 +151,12 @@ Print Assumptions C09_held_is_nearest_unit.
 
 (* The implementation-side oracle of the correspondence run evaluates the same statement in exact rational arithmetic
    on every bid of every generated state (and flags the class K_prorata by name). *)
+
+(* non-vacuity: in the witness history (Witness.v) the open bid was created with fee 25 on quote 250 (rate 0.1), has 150
+   of its quote unspent after a price-improved fill and a partial reject, and holds exactly 15 *)
+Example C09_witness :
+  match lookup wB (st_bids (run w_st0 w_hist)) with
+  | Some (SlotV3 b) => (unspent b, held b, fee_for_rest b 25 (unspent b))
+  | _ => (0, 0, Refused 0)
+  end = (150, 15, Ok 15).
+Proof. vm_compute. reflexivity. Qed.
